@@ -258,4 +258,96 @@ def deepcopyImpl (h : Heap) (l : Links) : Heap × Links :=
      mon := h.mon ++ [h.mon.getD l.solverMon []] ++ [h.mon.getD l.closureMon []] },
    { solverCtr := c0, closureCtr := c0 + 1, solverMon := m0, closureMon := m0 + 1 })
 
+/-- `AbstractSolver.__copy__` (abstract_solver.py l.1195-1200): `result.__dict__.update(self.__dict__)` - the copy's
+attributes ARE the original's objects: the same counter list, the same monitor, the same decorated objective.  No
+cell is allocated; the new solver object has the four pointers of the old one -/
+def shallowCopy (h : Heap) (l : Links) : Heap × Links := (h, l)
+
+/-- a `__copy__` that gives the copy a PRIVATE counter list (`result._fcalls = self._fcalls[:]`) while the decorated
+objective - shared with the original - keeps the old one.  NOT the code: the hypothesis of the witness
+`shallow_copy_private_counter_stops_counting` (what "each copy counts for itself" would break) -/
+def shallowCopyPrivateCtr (h : Heap) (l : Links) : Heap × Links :=
+  ({ h with ctr := h.ctr ++ [h.ctr.getD l.solverCtr 0] }, { l with solverCtr := h.ctr.length })
+
+/-! ## Part C: solver-private settings handed to `Solve` / `Step` as keywords
+
+`Solve(**kwds)` calls `_process_inputs(kwds)` ONCE and then `Step(**settings)` for every generation with the
+`settings` dict it got back (abstract_solver.py l.1169, l.1131); `Step` hands its keywords to `_Step`, which calls
+`_process_inputs` again (differential_evolution.py l.245; scipy_optimize.py l.240, l.625).  `_process_inputs` reads
+the defaults from fields of the solver, overrides them by the keywords and WRITES THE RESULT BACK to the fields
+("sticky"): the fields are what a restart file carries, the `settings` dict lives on the stack of `Solve` only. -/
+
+/-- the stored fields of a DifferentialEvolutionSolver(2): `self.strategy` (a NAME), `self.probability`, `self.scale`
+(differential_evolution.py l.168-170) -/
+structure DESet (C : Type) where
+  strategy : Nat
+  probability : C
+  scale : C
+  deriving DecidableEq, Repr
+
+/-- the keywords that touch them: `strategy` (a function object, identified by its `__name__`), `CrossProbability`,
+`ScalingFactor`; `none` = keyword not given -/
+structure DEKw (C : Type) where
+  strategy : Option Nat := none
+  cr : Option C := none
+  f : Option C := none
+  deriving DecidableEq, Repr
+
+/-- `getattr(mystic.strategy, name, strategy.Best1Bin)` (l.369): the names `< nKnown` are functions of the module
+`mystic.strategy`, name 0 is `Best1Bin`; any other name (a user's own strategy function) resolves to `Best1Bin` -/
+def resolve (nKnown : Nat) (name : Nat) : Nat := if name < nKnown then name else 0
+
+/-- `DifferentialEvolutionSolver(2)._process_inputs` (differential_evolution.py l.362-380 / l.623-641): returns the
+strategy entry of `settings` and the fields afterwards -/
+def DESet.process {C : Type} (nKnown : Nat) (s : DESet C) (kw : DEKw C) : Nat × DESet C :=
+  let dflt := resolve nKnown s.strategy                 -- l.369  strategy = getattr(strategy, self.strategy, Best1Bin)
+  let strat := kw.strategy.getD dflt                    -- l.370-374  settings['strategy'], overridden by kwds
+  (strat, { strategy := strat,                          -- l.379  self.strategy = settings['strategy'].__name__
+            probability := kw.cr.getD s.probability,    -- l.376
+            scale := kw.f.getD s.scale })               -- l.378
+
+/-- NOT the code: `_process_inputs` writing back the LOCAL default (`strategy`, l.369) instead of the entry of
+`settings` - the hypothesis of the witness `de_writeback_must_be_the_setting_in_force` -/
+def DESet.processLocal {C : Type} (nKnown : Nat) (s : DESet C) (kw : DEKw C) : Nat × DESet C :=
+  let dflt := resolve nKnown s.strategy
+  (kw.strategy.getD dflt, { strategy := dflt, probability := kw.cr.getD s.probability, scale := kw.f.getD s.scale })
+
+def iter {α : Type} (f : α → α) : Nat → α → α
+  | 0, a => a
+  | n + 1, a => iter f n (f a)
+
+/-- one `Step(**kw)` of a solver with the rest of its state in `σ`: `_Step` processes the keywords and generates the
+trial vectors with the strategy in force and the stored `probability` / `scale` (`gen` is ANY function of them) -/
+def deStepKw {C σ : Type} (P : DESet C → DEKw C → Nat × DESet C) (gen : Nat → C → C → σ → σ) (kw : DEKw C)
+    (st : DESet C × σ) : DESet C × σ :=
+  ((P st.1 kw).2, gen (P st.1 kw).1 (P st.1 kw).2.probability (P st.1 kw).2.scale st.2)
+
+/-- `Solve(**kw)` cut after `n` generations: `_process_inputs(kw)` once, then every `Step` gets the `settings` dict,
+whose only solver-private key is `strategy` (`CrossProbability` / `ScalingFactor` are no keys of `settings`) -/
+def deSolveKw {C σ : Type} (P : DESet C → DEKw C → Nat × DESet C) (gen : Nat → C → C → σ → σ) (kw : DEKw C) (n : Nat)
+    (st : DESet C × σ) : DESet C × σ :=
+  iter (deStepKw P gen { strategy := some (P st.1 kw).1 }) n ((P st.1 kw).2, st.2)
+
+/-- Nelder-Mead (`radius`, `adaptive`: scipy_optimize.py l.397-403) and Powell (`xtol`, `imax`: l.786-794): two
+stored fields; `settings` = the fields overridden by the keywords; both are written back; both are keys of the
+`settings` dict `Solve` hands to every `Step` -/
+structure Set2 (A B : Type) where
+  a : A
+  b : B
+  deriving DecidableEq, Repr
+
+structure Kw2 (A B : Type) where
+  a : Option A := none
+  b : Option B := none
+  deriving DecidableEq, Repr
+
+def Set2.process {A B : Type} (s : Set2 A B) (kw : Kw2 A B) : Set2 A B :=
+  { a := kw.a.getD s.a, b := kw.b.getD s.b }
+
+def step2Kw {A B σ : Type} (gen : A → B → σ → σ) (kw : Kw2 A B) (st : Set2 A B × σ) : Set2 A B × σ :=
+  (st.1.process kw, gen (st.1.process kw).a (st.1.process kw).b st.2)
+
+def solve2Kw {A B σ : Type} (gen : A → B → σ → σ) (kw : Kw2 A B) (n : Nat) (st : Set2 A B × σ) : Set2 A B × σ :=
+  iter (step2Kw gen { a := some (st.1.process kw).a, b := some (st.1.process kw).b }) n (st.1.process kw, st.2)
+
 end MysticVerif.Checkpoint
